@@ -137,6 +137,24 @@ func genMutants(src []byte, filename string) ([]mutant, error) {
 				}
 			case *ast.IfStmt:
 				add(x, x.Cond.Pos(), x.Cond.End(), "!("+string(src[off(x.Cond.Pos()):off(x.Cond.End())])+")", "negate-if")
+				// a guard "simplified away": if c { …; return/break/continue/goto/panic } without else and without init
+				if x.Init == nil && x.Else == nil && len(x.Body.List) > 0 {
+					last := x.Body.List[len(x.Body.List)-1]
+					leaves := false
+					switch l := last.(type) {
+					case *ast.ReturnStmt, *ast.BranchStmt:
+						leaves = true
+					case *ast.ExprStmt:
+						if call, ok := l.X.(*ast.CallExpr); ok {
+							if id, ok := call.Fun.(*ast.Ident); ok && id.Name == "panic" {
+								leaves = true
+							}
+						}
+					}
+					if leaves {
+						add(x, x.Pos(), x.End(), "{}", "del-guard")
+					}
+				}
 			case *ast.AssignStmt:
 				// delete a plain (re)assignment or op-assignment
 				if x.Tok != token.DEFINE {
@@ -163,6 +181,22 @@ func genMutants(src []byte, filename string) ([]mutant, error) {
 			case *ast.UnaryExpr:
 				if x.Op == token.NOT {
 					add(x, x.OpPos, x.OpPos+1, "", "drop-!")
+				}
+			case *ast.BlockStmt:
+				for i := 0; i+1 < len(x.List); i++ {
+					a, b := x.List[i], x.List[i+1]
+					simple := func(st ast.Stmt) bool {
+						switch s := st.(type) {
+						case *ast.AssignStmt:
+							return s.Tok != token.DEFINE
+						case *ast.IncDecStmt, *ast.ExprStmt:
+							return true
+						}
+						return false
+					}
+					if simple(a) && simple(b) {
+						add(a, a.Pos(), b.End(), string(src[off(b.Pos()):off(b.End())])+"\n"+string(src[off(a.Pos()):off(a.End())]), "swap-stmt")
+					}
 				}
 			case *ast.FuncLit:
 				return true
